@@ -267,6 +267,17 @@ fn environment_sweep(tier: &str, rec: &Recorder, out: &mut RunOutput) {
     inputs.push(("gnp(30,0.15,undirected,seed 3)".into(), Box::new(|| random::fast_gnp_random_graph(30, 0.15, false, Some(3)).unwrap())));
     inputs.push(("gnp(25,0.15,directed,seed 4)".into(), Box::new(|| random::fast_gnp_random_graph(25, 0.15, true, Some(4)).unwrap())));
     inputs.push(("complete_graph(6)".into(), Box::new(|| graphrs::generators::classic::complete_graph(6, false))));
+    for legs in [70i32, 300] {
+        // spider: a hub with `legs` legs of two nodes - more neighbouring communities than any small fixed bound
+        inputs.push((format!("spider({legs})"), Box::new(move || {
+            let mut g: graphrs::Graph<i32, ()> = graphrs::Graph::new(graphrs::GraphSpecs::undirected_create_missing());
+            for k in 0..legs {
+                g.add_edge(Edge::new(0, 1 + 2 * k)).unwrap();
+                g.add_edge(Edge::new(1 + 2 * k, 2 + 2 * k)).unwrap();
+            }
+            g
+        })));
+    }
     for n in [30i32, 100] {
         // long cycles: several aggregation levels with exact ties on every level
         inputs.push((format!("cycle({n})"), Box::new(move || {
